@@ -51,11 +51,11 @@ def newton(f, x0, jac, niter=20, tol=1e-13, nlinesearch=10):
 
             step_scale /= 2
             
-        if residual_norm >= last_residual_norm:
+        if not residual_norm < last_residual_norm:
             logger.info('Line search failed to reduce residual')
             break
 
-    if last_residual_norm > tol * 1e4:
+    if not last_residual_norm <= tol * 1e4:
         logger.warning('Newton solve did not get close to desired tolerance. '
                        f'Final residual: {last_residual_norm}')
 
